@@ -640,19 +640,26 @@ struct Raster : Profile {
                     done = false;
                 else if (k == "legread")
                     check_legacy(s, li, "in session");
-                else if (L.comp && p.knob("unguard_legacy_rle_rewrite", 0) == 0)
-                    done = false; // known finding C09-legacy-rle-rewrite-lost: old-style RLE images are not rewritten
                 else {
                     int32 ri = find_legacy(s, L);
                     if (ri == FAIL)
                         ctx.fail("legacy-lost", "legacy-lost:write", "the DFR8 image is not among the GR images");
                     std::vector<uint8_t> d = legacy_pixels(L.w, L.h, (int)o.arg(1), (uint64_t)o.arg(2));
+                    // known finding C09-legacy-rle-rewrite-refused: an old-style RLE image cannot be rewritten with pixels
+                    // whose compressed stream is longer than the stored one (the element cannot grow).  Guard: such images
+                    // are rewritten with one colour, which gives the shortest stream there is for the size.
+                    if (L.comp && p.knob("unguard_legacy_rle_rewrite", 0) == 0) {
+                        std::fill(d.begin(), d.end(), (uint8_t)(o.arg(2) & 0xff));
+                        ctx.probe("legacy-rle-rewrite");
+                    }
                     int32 start[2] = {0, 0}, cnt[2] = {L.w, L.h};
                     if (GRwriteimage(ri, start, NULL, cnt, d.data()) == FAIL)
                         ctx.fail("write-refused", strf("write-refused:legacy:%s", L.comp ? "rle" : "plain"),
-                                 strf("GRwriteimage (whole image) on the DFR8 image failed: %s", HEstring((hdf_err_code_t)HEvalue(1))));
+                                 strf("GRwriteimage (whole image) on the DFR8 image failed: %s", herr().c_str()));
                     L.pix = d;
-                    GRendaccess(ri);
+                    if (GRendaccess(ri) == FAIL)
+                        ctx.fail("write-refused", strf("write-refused:legacy:%s:endaccess", L.comp ? "rle" : "plain"),
+                                 strf("GRendaccess after GRwriteimage (whole image) on the DFR8 image failed: %s", herr().c_str()));
                     ctx.probe("legacy-rewrite");
                 }
             }
